@@ -1047,6 +1047,10 @@ func buildResObj(params map[string]any, parentKeys []string, key string, schema 
 		if additPropsSchema != nil {
 			// dynamic creation of possibly nested objects
 			for k := range objectParams {
+				if _, declared := schema.Value.Properties[k]; declared {
+					// a declared property keeps its own schema
+					continue
+				}
 				r, err := buildResObj(params, mapKeys, k, additPropsSchema)
 				if err != nil {
 					return nil, err
